@@ -4,7 +4,9 @@
    proofs are in C16/Proofs.v.  [reach mx s]: s is the state after ANY finite sequence of ops
    (replies, duplicate/unknown replies, timer goroutines, Cancel, arrivals, stop / cancelInFlight /
    reset / restart, and the turn's dispatch / finish / Request / Then steps) from the initial state
-   with in-flight limit mx (0 = unlimited). *)
+   with in-flight limit mx (0 = unlimited).  The boolean z says whether cancelInFlightRequests stores 0
+   into both counters after its loop: true is the code as it stands, false the code with
+   fixes/C16-cancel-inflight-no-zeroing.diff; the theorems that do not fix z hold for both. *)
 From Coq Require Import ZArith List Bool Arith Permutation.
 From GV Require Import C16.Model C16.Proofs.
 Import ListNotations.
@@ -15,14 +17,14 @@ Open Scope Z_scope.
    between messages — exactly once iff the request is completed, a continuation is registered and
    it was not discarded by a shutdown cancellation (which always records the cancellation outcome);
    with nothing in flight and the turn idle every request issued so far is completed. *)
-Theorem C16_complete_once : forall mx s, reach mx s ->
+Theorem C16_complete_once : forall z mx s, reach z mx s ->
   (forall r ob, get (objs s) r = Some ob ->
       (o_calls ob <= 1)%nat /\
       (turn s = TIdle -> o_calls ob = if o_completed ob && o_cb ob && negb (o_dropped ob) then 1%nat else 0%nat) /\
       (o_dropped ob = true -> o_outcome ob = Some KShutdown) /\
       (o_completed ob = true <-> o_outcome ob <> None)) /\
   (forall o r ob, get (objs s) r = Some ob ->
-      exists ob', get (objs (step s o)) r = Some ob' /\
+      exists ob', get (objs (step z s o)) r = Some ob' /\
         (o_completed ob = true -> o_completed ob' = true /\ o_outcome ob' = o_outcome ob) /\
         (o_calls ob' <> o_calls ob -> is_turn_op o = true /\ o_calls ob' = S (o_calls ob))) /\
   (turn s = TIdle -> table s = [] -> forall r ob, get (objs s) r = Some ob -> o_completed ob = true).
@@ -31,19 +33,19 @@ Proof. exact complete_once. Qed.
 (* Counters.  The literal clause (inFlight = |requestStates|, blocking = number of stash-mode states,
    limit respected, in every reachable state) is false for the code as it is: *)
 Theorem C16_counters_exact_refuted :
-  exists ops, let s := run 1 ops in
+  exists ops, let s := run true 1 ops in
     inflight s = -1 /\ blocking s = -1 /\ table s = [] /\ turn s = TIdle /\ ph s = PRun.
 Proof. exact counters_exact_refuted. Qed.
 
 Theorem C16_inflight_limit_refuted :
-  exists ops, let s := run 1 ops in
+  exists ops, let s := run true 1 ops in
     maxif s = 1 /\ length (table s) = 2%nat /\ (forall r, In r (table s) -> is_completed (objs s) r = false).
 Proof. exact inflight_limit_refuted. Qed.
 
 (* ... and holds in every reachable state in which no cancelInFlightRequests ran between the
    requestState.complete and the deregisterRequestState of an on-turn completion since the last
    reset ([tainted s = false]): *)
-Theorem C16_counters_exact_partial : forall mx s, reach mx s -> tainted s = false ->
+Theorem C16_counters_exact_partial : forall z mx s, reach z mx s -> tainted s = false ->
   inflight s = Z.of_nat (length (table s)) /\
   blocking s = Z.of_nat (nstash (objs s) (table s)) /\
   0 <= blocking s <= inflight s /\
@@ -52,44 +54,60 @@ Theorem C16_counters_exact_partial : forall mx s, reach mx s -> tainted s = fals
   NoDup (table s).
 Proof. exact counters_exact_partial. Qed.
 
+(* ... and in EVERY reachable state once the two Store(0) are gone (the proposed repair): *)
+Theorem C16_counters_exact_repaired : forall mx s, reach false mx s ->
+  inflight s = Z.of_nat (length (table s)) /\
+  blocking s = Z.of_nat (nstash (objs s) (table s)) /\
+  0 <= blocking s <= inflight s /\
+  (0 < mx -> inflight s <= mx) /\
+  (table s = [] -> inflight s = 0 /\ blocking s = 0) /\
+  NoDup (table s).
+Proof. exact counters_exact_repaired. Qed.
+
+Theorem C16_stash_mode_isolation_repaired : forall mx s, reach false mx s ->
+  forall o, handled (step false s o) <> handled s ->
+     o = ODispatch /\ nstash (objs s) (table s) = O /\
+     exists n rest, mbox s = MUser n :: rest /\ handled (step false s o) = handled s ++ [n].
+Proof. exact stash_mode_isolation_repaired. Qed.
+
 (* a reset (end of every stop) re-establishes exactness whatever happened before *)
-Theorem C16_counters_zero_after_reset : forall mx s, reach mx s -> ph s = PCancelled ->
-  let s' := step s OReset in
+Theorem C16_counters_zero_after_reset : forall z mx s, reach z mx s -> ph s = PCancelled ->
+  let s' := step z s OReset in
   tainted s' = false /\ table s' = [] /\ inflight s' = 0 /\ blocking s' = 0.
 Proof. exact counters_zero_after_reset. Qed.
 
 (* Stash mode.  Literal clause false for the same interleaving (a blocking request is in flight,
    blockingCount is 0, the next ordinary message is handled): *)
 Theorem C16_stash_mode_isolation_refuted :
-  exists ops, let s := run 1 ops in
+  exists ops, let s := run true 1 ops in
     nstash (objs s) (table s) = 1%nat /\ (forall r, In r (table s) -> is_completed (objs s) r = false) /\
-    handled (step s ODispatch) = handled s ++ [O].
+    handled (step true s ODispatch) = handled s ++ [O].
 Proof. exact stash_mode_isolation_refuted. Qed.
 
-Theorem C16_stash_mode_isolation_partial : forall mx s, reach mx s -> tainted s = false ->
-  (forall o, handled (step s o) <> handled s ->
+Theorem C16_stash_mode_isolation_partial : forall z mx s, reach z mx s -> tainted s = false ->
+  (forall o, handled (step z s o) <> handled s ->
      o = ODispatch /\ nstash (objs s) (table s) = O /\
-     exists n rest, mbox s = MUser n :: rest /\ handled (step s o) = handled s ++ [n]) /\
+     exists n rest, mbox s = MUser n :: rest /\ handled (step z s o) = handled s ++ [n]) /\
   (forall n rest, (0 < nstash (objs s) (table s))%nat -> turn s = TIdle -> mbox s = MUser n :: rest ->
-     stashq (step s ODispatch) = stashq s ++ [MUser n] /\ mbox (step s ODispatch) = rest /\
-     handled (step s ODispatch) = handled s) /\
+     stashq (step z s ODispatch) = stashq s ++ [MUser n] /\ mbox (step z s ODispatch) = rest /\
+     handled (step z s ODispatch) = handled s) /\
   (forall r k rest, turn s = TIdle -> mbox s = MResp r k :: rest ->
-     stashq (step s ODispatch) = stashq s /\ mbox (step s ODispatch) = rest) /\
-  (turn s = TIdle -> ctls (step s OCtl) = S (ctls s)).
+     stashq (step z s ODispatch) = stashq s /\ mbox (step z s ODispatch) = rest) /\
+  (turn s = TIdle -> ctls (step z s OCtl) = S (ctls s)).
 Proof. exact stash_mode_isolation_partial. Qed.
 
 (* Order of the held messages.  Literal clause false (unstashAll re-enqueues at the mailbox tail;
    two rounds put held messages 3 and 1 in the stash in that order): *)
 Theorem C16_stash_order_refuted :
   exists ops1 ops2,
-    stashq (run 0 ops1) = [MUser 3; MUser 1] /\ tainted (run 0 (ops1 ++ ops2)) = false /\
-    handled (run 0 (ops1 ++ ops2)) = [0; 2; 3; 1]%nat.
+    stashq (run true 0 ops1) = [MUser 3; MUser 1] /\ tainted (run true 0 (ops1 ++ ops2)) = false /\
+    handled (run true 0 (ops1 ++ ops2)) = [0; 2; 3; 1]%nat.
 Proof. exact stash_order_refuted. Qed.
 
 (* Always: no accepted ordinary message is lost or duplicated.  And the handler sees them in arrival
    order as long as no release happened while ordinary messages were waiting in the mailbox and no
    message was handled past stranded held ones ([overtaken s = false]). *)
-Theorem C16_stash_order_partial : forall mx s, reach mx s ->
+Theorem C16_stash_order_partial : forall z mx s, reach z mx s ->
   Permutation (handled s ++ pending s) (seq 0 (nextu s)) /\
   (overtaken s = false -> handled s ++ pending s = seq 0 (nextu s)).
 Proof. exact stash_order_partial. Qed.
@@ -98,6 +116,8 @@ Print Assumptions C16_complete_once.
 Print Assumptions C16_counters_exact_refuted.
 Print Assumptions C16_inflight_limit_refuted.
 Print Assumptions C16_counters_exact_partial.
+Print Assumptions C16_counters_exact_repaired.
+Print Assumptions C16_stash_mode_isolation_repaired.
 Print Assumptions C16_counters_zero_after_reset.
 Print Assumptions C16_stash_mode_isolation_refuted.
 Print Assumptions C16_stash_mode_isolation_partial.
